@@ -186,7 +186,7 @@ class CArr:
 
     def __init__(self, buf, shape, axes=None, meta=None):
         self.buf = buf
-        self.shape = tuple(N(s) for s in shape)
+        self.shape = tuple(T.resolve_dim(s) for s in shape)
         if axes is None:
             axes = [('ax', k, 0, 1) for k in range(len(shape))]
         self.axes = list(axes)
